@@ -699,7 +699,9 @@ func ruleSemantic(c *Ctx) {
 				for _, b := range ec.blks {
 					for _, cond := range controlConds(b) {
 						hasPrev, hasCached := false, false
-						for v := range backSlice(cond) {
+						condSlice := map[ssa.Value]bool{}
+						sliceWithControl(cond, 0, condSlice) // the comparison may sit in a verdict helper (`data, ok := cache.previousData(uri, prevID)`)
+						for v := range condSlice {
 							var bt, ft types.Type
 							switch x := v.(type) {
 							case *ssa.FieldAddr:
